@@ -58,7 +58,11 @@ Target == TargetOf(version, iv)
 Init == /\ work = Nil /\ saved = <<>> /\ first = 0 /\ latest = 0 /\ version = 0
         /\ fast \in BOOLEAN /\ iv \in IVs /\ nops = 0
         /\ wm = EmptyMap /\ vm = <<>> /\ wlog = <<>>
-        /\ hist = <<>> /\ done = FALSE
+        \* the first record of a behaviour says how the store is opened
+        /\ hist = (IF Record THEN <<[op |-> "open", a |-> [fast |-> fast], r |-> [ver |-> 0, err |-> FALSE],
+                                     first |-> 0, latest |-> 0, ver |-> 0, fast |-> fast, iv |-> iv,
+                                     tgt |-> TargetOf(0, iv), work |-> Nil]>> ELSE <<>>)
+        /\ done = FALSE
 
 \* every step record carries the expected observable state after the call
 Step(op, a, r) == [op |-> op, a |-> a, r |-> r,
@@ -152,6 +156,13 @@ Reopen(f) ==
   /\ UNCHANGED <<saved, first, latest, iv, vm, done>>
   /\ Log("reopen", [fast |-> f], [ver |-> latest, err |-> FALSE])
 
+\* close the handle, open a new one and load retained version t directly (LoadVersion(t) on a fresh handle)
+ReopenAt(f, t) ==
+  /\ t \in Retained
+  /\ fast' = f /\ version' = t /\ work' = saved[t] /\ wm' = vm[t] /\ nops' = 0 /\ WClear
+  /\ UNCHANGED <<saved, first, latest, iv, vm, done>>
+  /\ Log("reopenat", [fast |-> f, t |-> t], [ver |-> latest, err |-> FALSE])
+
 \* LoadVersion(t) on the live handle; t = 0 means latest; outside the range: error, tree stays usable
 LoadVersion(t) ==
   LET tt == IF t = 0 THEN latest ELSE t IN
@@ -216,6 +227,7 @@ NextBounded ==
   \/ (latest < MaxVer \/ Target \in Retained) /\ SaveVersion
   \/ nops > 0 /\ Rollback
   \/ \E f \in BOOLEAN : Reopen(f)
+  \/ \E f \in BOOLEAN, t \in Retained : ReopenAt(f, t)
   \/ \E t \in 0..(latest + 1) : LoadVersion(t)
   \/ \E t \in 1..(latest + 1) : LoadVersionForOverwriting(t)
   \/ \E n \in 0..(latest + 1) : DelOk(n) /\ DeleteVersionsTo(n)
@@ -240,6 +252,7 @@ NextSim ==
       [] c = "save"     -> SaveVersion
       [] c = "rollback" -> Rollback
       [] c = "reopen"   -> \E f \in BOOLEAN : Reopen(f)
+      [] c = "reopenat" -> IF latest = 0 THEN \E f \in BOOLEAN : Reopen(f) ELSE \E f \in BOOLEAN, t \in Retained : ReopenAt(f, t)
       [] c = "load"     -> \E t \in 0..(latest + 1) : LoadVersion(t)
       [] c = "lvfo"     -> \E t \in 1..(latest + 1) : LoadVersionForOverwriting(t)
       [] c = "delto"    -> \E n \in 0..(latest + 1) : DelOk(n) /\ DeleteVersionsTo(n)
